@@ -3,11 +3,13 @@ package props
 import (
 	"bytes"
 	"context"
+	"crypto/tls"
 	"errors"
 	"fmt"
 	"io"
 	"sort"
 	"strings"
+	"time"
 
 	wire "github.com/jeroenrinzema/psql-wire"
 	"verif/engine/explore"
@@ -405,6 +407,67 @@ func c18RunRejected(first []string, later int) explore.Result {
 	return res
 }
 
+// c18RunAfterTLS: a server with certificates; `upgrades` clients upgrade to TLS (handshake completed) and leave, then
+// plaintext connections follow one after the other, all still connected: what the parser of each was handed (query
+// text, client parameters) is retained and compared after every later connection's traffic.
+func c18RunAfterTLS(upgrades, later int) explore.Result {
+	var res explore.Result
+	res.Outcome = "retained"
+	res.Key = fmt.Sprint("after-tls", upgrades, later)
+	st := &c18State{}
+	parse := func(ctx context.Context, q string) (wire.PreparedStatements, error) {
+		st.keepString("query text "+clip(q), q)
+		st.keepMap("client parameters seen by the parser of "+clip(q), wire.ClientParameters(ctx))
+		return wire.Prepared(wire.NewStatement(func(ctx context.Context, w wire.DataWriter, params []wire.Parameter) error { return w.Complete("OK") })), nil
+	}
+	srv, err := harness.NewServer(parse, wire.TLSConfig(&tls.Config{Certificates: []tls.Certificate{c11Certificate()}}))
+	if err != nil {
+		res.Engine = err.Error()
+		return res
+	}
+	defer srv.Stop()
+	for i := 0; i < upgrades; i++ {
+		c := srv.Connect()
+		if out, _ := c.Step(pgproto.SSLRequest()); string(out) != "S" {
+			res.Engine = fmt.Sprintf("SSLRequest answered % x", out)
+			return res
+		}
+		ce := memnet.NewClientEnd(c.C)
+		tc := tls.Client(ce, &tls.Config{InsecureSkipVerify: true, ServerName: "verif"})
+		hs := make(chan error, 1)
+		go func() { hs <- tc.Handshake() }()
+		select {
+		case err := <-hs:
+			if err != nil {
+				res.Engine = "TLS handshake failed: " + err.Error()
+				return res
+			}
+		case <-time.After(memnet.Watchdog):
+			res.Poison = true
+			res.Engine = "TLS handshake stalled"
+			return res
+		}
+		ce.Close()
+	}
+	for i := 0; i < later; i++ {
+		c := srv.Connect()
+		fill := string(bytes.Repeat([]byte{byte('a' + i)}, 20+13*i))
+		out, _ := c.Step(pgproto.Startup("user", "user-"+fill, "database", "db-"+fill, "application_name", "app-"+fill))
+		if !strings.HasSuffix(harness.Kinds(out), "Z") {
+			res.Fail("not-served", fmt.Sprintf("plaintext connection %d after %d TLS upgrades: start-up answered %q", i+1, upgrades, harness.Kinds(out)))
+			return res
+		}
+		c.Step(pgproto.Query("SELECT '" + fill + "' -- connection " + fmt.Sprint(i)))
+		c.Step(pgproto.Query("SELECT 2 -- " + fill))
+		if d := st.check(); d != "" {
+			res.Fail("retained-data-overwritten", fmt.Sprintf("%d TLS upgrades, then plaintext connection %d of %d (all still connected): %s", upgrades, i+1, later, d))
+			return res
+		}
+	}
+	res.Trans = []string{"tls upgrades|plaintext connections|unchanged"}
+	return res
+}
+
 // c18RunBetweenOversized: under a small message limit an oversized message is skipped, ordinary queries follow (their
 // texts are retained), a second and third oversized message are skipped: wherever in the reader's 4 KiB block all of
 // this falls (a filler query of `fill` bytes comes first), the retained texts keep their content.
@@ -513,6 +576,15 @@ func c18Depth(tier string) int {
 }
 
 func c18Enumerate(tier string, emit explore.Emit) {
+	for upgrades := 0; upgrades <= 3; upgrades++ {
+		for _, later := range []int{2, 3, 6} {
+			upgrades, later := upgrades, later
+			emit(explore.Case{Family: "retention/logins", Size: 6, Desc: func() any {
+				return map[string]any{"tls_upgrades_before": upgrades, "plaintext_connections_after (all still connected)": later}
+			},
+				Run: func() explore.Result { return c18RunAfterTLS(upgrades, later) }})
+		}
+	}
 	hows := []string{"rejected", "accepted, then a query", "rejected with a pipelined query"}
 	forShapes(len(hows), 2, func(sh []int) {
 		if len(sh) == 0 {
